@@ -26,6 +26,15 @@
 //! sequences of integers of one type as `read::<($t,…)>()` (tuples) / `read_vec::<$t>(n)`. The driver answers
 //! the same line by running the Reader *model* on the Writer *model's* sink (`rbuf` = its buffer size).
 //! Scripts outside the read-back domain answer `INVALID` on both sides.
+//!
+//! Third line kind (several live objects on one thread): `m buf=<BUF> dbg=<0|1|*> rbuf=<n> ; <slot> <step> ; …` with steps
+//! `N k j` (new Writer over a fresh sink), `W…|C…|F|O…|L…` (inherent API), `T <val>` (the trait method `Writable::write(&val, &mut w)`
+//! called directly: no debug flush), `MV` (moved to another address), `D` (drop), `LK` (`mem::forget`), `RN rc <string>` (new Reader),
+//! `RS|RC|RI <ty>|RE` (reads). Answer: `I mw ev=[<slot>:F=len:fnv,<slot>:R=<v>,<slot>:D=len:fnv[:hex],…] fmt=ok|bad ub=ok|na|bad@i | V <same>`
+//! (see `run_mcase`; model and specification: `lean/RlibModel/Model/IoMulti.lean`).
+//!
+//! Fourth line kind (characters): `c buf= dbg= rbuf= rc= k= j= ; C n ; …` — `write_char`, drop, one `read::<char>()` per
+//! non-whitespace byte, `is_eof()`: `I cb drop=len:fnv[:hex] vals=c:<hex>,…,eof=<bool> | V <same>`.
 #[path = "../../common/mod.rs"]
 mod common;
 use common::*;
@@ -117,6 +126,35 @@ macro_rules! def_hval {
                     w.write(xs)
                 }
                 HVal::Seq(true, _) => w.write(v),
+            }
+        }
+
+        /// the public trait method called directly: `Writable::write(&x, &mut w)` with the concrete type where there is one
+        /// (no `#[cfg(debug_assertions)] flush` of `Writer::write` behind it)
+        fn trait_top(w: &mut Writer, v: &HVal) {
+            match v {
+                $(HVal::$v(x) => Writable::write(x, w),)*
+                HVal::Str(s, false) => Writable::write(&s.as_str(), w),
+                HVal::Str(s, true) => Writable::write(s, w),
+                HVal::Seq(false, xs) => {
+                    $(
+                        if !xs.is_empty() && xs.iter().all(|x| matches!(x, HVal::$v(_))) {
+                            let mono: Vec<$t> = xs.iter().map(|x| if let HVal::$v(y) = x { *y } else { unreachable!() }).collect();
+                            Writable::write(&mono, w);
+                            return;
+                        }
+                    )*
+                    Writable::write(xs, w)
+                }
+                HVal::Seq(true, _) => Writable::write(v, w),
+            }
+        }
+
+        /// `reader.read::<ty>()` for an integer type given by name, printed in decimal
+        fn read_int_named(r: &mut Reader, ty: &str) -> Option<String> {
+            match ty {
+                $($n => Some(r.read::<$t>().to_string()),)*
+                _ => None,
             }
         }
 
@@ -282,6 +320,7 @@ fn pat_byte(kind: u64, seed: u64, len: u64, i: u64) -> u8 {
                 9
             }
         }
+        3 => non_ws_ascii((seed + i * 7) % 123),
         _ => {
             if len % 2 == 1 && i == 0 {
                 120
@@ -297,7 +336,52 @@ fn pat_byte(kind: u64, seed: u64, len: u64, i: u64) -> u8 {
     }
 }
 
+/// The `x`-th ASCII byte that is not whitespace (`x < 123`): 0..8, 11, 14..31, 33..127 (NUL, control characters, DEL included).
+fn non_ws_ascii(x: u64) -> u8 {
+    (if x < 9 {
+        x
+    } else if x == 9 {
+        11
+    } else if x < 28 {
+        x + 4
+    } else {
+        x + 5
+    }) as u8
+}
+
+/// Kind 4: valid UTF-8 made of 1-, 2-, 3- and 4-byte characters in rotation (every byte value a `String` can contain
+/// occurs); a character that no longer fits into `len` bytes is replaced by a one-byte one.
+fn pat4_string(seed: u64, len: u64) -> String {
+    let mut out = String::with_capacity(len as usize);
+    let mut remaining = len;
+    let mut n: u64 = 0;
+    while remaining > 0 {
+        let small = (seed * 5 + n * 13) % 128;
+        let (cp, sz) = match (seed + n) % 4 {
+            0 => (small, 1),
+            1 => (0x80 + (seed * 31 + n * 61) % 0x780, 2),
+            2 => {
+                let cp = 0x800 + (seed * 257 + n * 1021) % 0xF000;
+                (if cp >= 0xD800 { cp + 0x800 } else { cp }, 3)
+            }
+            _ => (0x10000 + (seed * 65537 + n * 69061) % 0x100000, 4),
+        };
+        if sz <= remaining {
+            out.push(char::from_u32(cp as u32).expect("pattern code points are scalar values"));
+            remaining -= sz;
+        } else {
+            out.push(small as u8 as char);
+            remaining -= 1;
+        }
+        n += 1;
+    }
+    out
+}
+
 fn pat_string(kind: u64, seed: u64, len: u64) -> Option<String> {
+    if kind == 4 {
+        return Some(pat4_string(seed, len));
+    }
     let bytes: Vec<u8> = (0..len).map(|i| pat_byte(kind, seed, len, i)).collect();
     String::from_utf8(bytes).ok()
 }
@@ -318,7 +402,7 @@ fn parse_scalar(tok: &str) -> Option<HVal> {
         [ty, v] => parse_int(ty, v),
         [ty, k, l, s] if *ty == "s" || *ty == "S" => {
             let (k, l, s) = (k.parse::<u64>().ok()?, l.parse::<u64>().ok()?, s.parse::<u64>().ok()?);
-            if k > 2 || l > (1 << 26) {
+            if k > 4 || l > (1 << 26) || (k == 4 && s > (1 << 32)) {
                 return None;
             }
             pat_string(k, s, l).map(|st| HVal::Str(st, *ty == "S"))
@@ -520,6 +604,12 @@ fn drop_str(bs: &[u8]) -> String {
 fn run_case(line: &str) -> String {
     if line.starts_with("r ") {
         return run_rcase(line);
+    }
+    if line.starts_with("m ") {
+        return run_mcase(line);
+    }
+    if line.starts_with("c ") {
+        return run_ccase(line);
     }
     let mut parts = line.split(';').map(|p| p.trim());
     let hdr = match parts.next().and_then(parse_hdr) {
@@ -736,36 +826,43 @@ fn parse_rhdr(s: &str) -> Option<RHdr> {
     Some(RHdr { buf: get("buf")?.parse().ok()?, rbuf: get("rbuf")?.parse().ok()?, rc: get("rc")?.parse().ok()?, alt })
 }
 
-/// All ops on a real `Writer` over `sink`, then drop.
-fn exec_ops_plain(ops: &[Op], sink: Box<dyn Write>) {
-    let writer = ManuallyDrop::new(Writer::new(sink));
+/// One inherent operation on a real `Writer` reached through a reference (`out!` / `outln!` are the real macros, bound to
+/// the reference by `make_output_macro!`).
+fn exec_pub(w: &mut Writer, op: &Op) {
+    let writer = w;
     let reader = ();
     rlib_io::make_output_macro!(reader, writer);
+    match op {
+        Op::Write(v) => write_top(&mut *writer, v),
+        Op::Char(c) => writer.write_char(*c),
+        Op::Flush => writer.flush(),
+        Op::Out(false, vs) => match vs.len() {
+            1 => { out!(vs[0]); }
+            2 => { out!(vs[0], vs[1]); }
+            3 => { out!(vs[0], vs[1], vs[2]); }
+            4 => { out!(vs[0], vs[1], vs[2], vs[3]); }
+            5 => { out!(vs[0], vs[1], vs[2], vs[3], vs[4]); }
+            6 => { out!(vs[0], vs[1], vs[2], vs[3], vs[4], vs[5]); }
+            _ => unreachable!(),
+        },
+        Op::Out(true, vs) => match vs.len() {
+            0 => { outln!(); }
+            1 => { outln!(vs[0]); }
+            2 => { outln!(vs[0], vs[1]); }
+            3 => { outln!(vs[0], vs[1], vs[2]); }
+            4 => { outln!(vs[0], vs[1], vs[2], vs[3]); }
+            5 => { outln!(vs[0], vs[1], vs[2], vs[3], vs[4]); }
+            6 => { outln!(vs[0], vs[1], vs[2], vs[3], vs[4], vs[5]); }
+            _ => unreachable!(),
+        },
+    }
+}
+
+/// All ops on a real `Writer` over `sink`, then drop.
+fn exec_ops_plain(ops: &[Op], sink: Box<dyn Write>) {
+    let mut writer = ManuallyDrop::new(Writer::new(sink));
     for op in ops {
-        match op {
-            Op::Write(v) => write_top(&mut writer, v),
-            Op::Char(c) => writer.write_char(*c),
-            Op::Flush => writer.flush(),
-            Op::Out(false, vs) => match vs.len() {
-                1 => { out!(vs[0]); }
-                2 => { out!(vs[0], vs[1]); }
-                3 => { out!(vs[0], vs[1], vs[2]); }
-                4 => { out!(vs[0], vs[1], vs[2], vs[3]); }
-                5 => { out!(vs[0], vs[1], vs[2], vs[3], vs[4]); }
-                6 => { out!(vs[0], vs[1], vs[2], vs[3], vs[4], vs[5]); }
-                _ => unreachable!(),
-            },
-            Op::Out(true, vs) => match vs.len() {
-                0 => { outln!(); }
-                1 => { outln!(vs[0]); }
-                2 => { outln!(vs[0], vs[1]); }
-                3 => { outln!(vs[0], vs[1], vs[2]); }
-                4 => { outln!(vs[0], vs[1], vs[2], vs[3]); }
-                5 => { outln!(vs[0], vs[1], vs[2], vs[3], vs[4]); }
-                6 => { outln!(vs[0], vs[1], vs[2], vs[3], vs[4], vs[5]); }
-                _ => unreachable!(),
-            },
-        }
+        exec_pub(&mut writer, op);
     }
     unsafe { ManuallyDrop::drop(&mut writer) };
 }
@@ -866,6 +963,325 @@ fn run_rcase(line: &str) -> String {
 }
 
 // ------------------------------------------------------------------------------------------------
+// `m` lines: several live objects (Writers over their own sinks, Readers over their own sources) used interleaved
+// ------------------------------------------------------------------------------------------------
+
+const SLOTS: usize = 8;
+
+enum RKind {
+    Str,
+    Chr,
+    Eof,
+    Int(String),
+}
+
+enum MStep {
+    NewW(usize, usize),
+    NewR(usize, String),
+    Pub(Op),
+    Trait(HVal),
+    Move,
+    Drop,
+    /// `std::mem::forget`: the object ceases to exist without `Drop` (what it had delivered so far is not looked at)
+    Leak,
+    Read(RKind),
+}
+
+fn parse_mstep(s: &str) -> Option<(usize, MStep)> {
+    let ts: Vec<&str> = s.split_whitespace().collect();
+    let k: usize = ts.first()?.parse().ok()?;
+    let rest = &ts[1..];
+    let step = match rest {
+        ["N", a, b] => MStep::NewW(a.parse().ok()?, b.parse().ok()?),
+        ["D"] => MStep::Drop,
+        ["MV"] => MStep::Move,
+        ["LK"] => MStep::Leak,
+        ["RS"] => MStep::Read(RKind::Str),
+        ["RC"] => MStep::Read(RKind::Chr),
+        ["RE"] => MStep::Read(RKind::Eof),
+        ["RI", ty] => {
+            if !TYPES.iter().any(|t| t.0 == *ty) {
+                return None;
+            }
+            MStep::Read(RKind::Int(ty.to_string()))
+        }
+        ["RN", rc, v] => match parse_scalar(v)? {
+            HVal::Str(st, _) => MStep::NewR(rc.parse().ok()?, st),
+            _ => return None,
+        },
+        ["T", vs @ ..] => match parse_val(vs, 0)? {
+            (v, []) => MStep::Trait(v),
+            _ => return None,
+        },
+        _ => MStep::Pub(parse_op(&rest.join(" "))?),
+    };
+    Some((k, step))
+}
+
+/// A live object. The value sits in a one-element `Vec` so that `MV` can move it to a **different** address (the new
+/// allocation is made while the old one is still alive). Writers are `ManuallyDrop`: a panic inside a call must not run
+/// `Drop` (= flush) during unwinding.
+enum Slot {
+    W { w: Vec<ManuallyDrop<Writer<'static>>>, data: Rc<RefCell<Vec<u8>>>, want: Vec<u8> },
+    R(Vec<Reader<'static>>),
+}
+
+fn oracle_op(op: &Op, want: &mut Vec<u8>) {
+    match op {
+        Op::Write(v) => fmt_val(v, want),
+        Op::Char(c) => want.push(*c as u32 as u8),
+        Op::Flush => {}
+        Op::Out(nl, vs) => {
+            for (i, v) in vs.iter().enumerate() {
+                if i != 0 {
+                    want.push(b' ');
+                }
+                fmt_val(v, want);
+            }
+            if *nl {
+                want.push(b'\n');
+            }
+        }
+    }
+}
+
+fn run_mcase(line: &str) -> String {
+    let mut parts = line.split(';').map(|p| p.trim());
+    let hdr_s = parts.next().unwrap_or("");
+    let ts: Vec<&str> = hdr_s.split_whitespace().collect();
+    let get = |key: &str| -> Option<&str> {
+        ts.iter().find_map(|t| t.split_once('=').and_then(|(k, v)| if k == key { Some(v) } else { None }))
+    };
+    let (buf, dbg, rbuf) = match (get("buf").and_then(|v| v.parse::<usize>().ok()), get("dbg"), get("rbuf").and_then(|v| v.parse::<usize>().ok())) {
+        (Some(b), Some(d), Some(r)) if matches!(d, "0" | "1" | "*") => (b, d, r),
+        _ => return out1("INVALID"),
+    };
+    let mut steps = Vec::new();
+    for p in parts {
+        if p.is_empty() {
+            continue;
+        }
+        match parse_mstep(p) {
+            Some(x) => steps.push(x),
+            None => return out1("INVALID"),
+        }
+    }
+    if buf == 0 {
+        return out1("INVALID");
+    }
+    // validity of the addressing (decided before anything runs, exactly as the model decides it)
+    {
+        let mut kind: [u8; SLOTS] = [0; SLOTS]; // 0 none, 1 writer, 2 reader
+        for (k, st) in &steps {
+            let k = *k;
+            let ok = match st {
+                MStep::NewW(_, j) => k < SLOTS && kind[k] == 0 && *j != 1,
+                MStep::NewR(_, _) => k < SLOTS && rbuf > 0 && kind[k] == 0,
+                MStep::Pub(_) | MStep::Trait(_) => k < SLOTS && kind[k] == 1,
+                MStep::Read(_) => k < SLOTS && kind[k] == 2,
+                MStep::Move | MStep::Drop | MStep::Leak => k < SLOTS && kind[k] != 0,
+            };
+            if !ok {
+                return out1("INVALID");
+            }
+            match st {
+                MStep::NewW(..) => kind[k] = 1,
+                MStep::NewR(..) => kind[k] = 2,
+                MStep::Drop | MStep::Leak => kind[k] = 0,
+                _ => {}
+            }
+        }
+    }
+    let evs: Rc<RefCell<Vec<String>>> = Rc::new(RefCell::new(Vec::new()));
+    let fmt_ok = Rc::new(Cell::new(true));
+    let behind = Rc::new(Cell::new(None::<usize>));
+    let res = {
+        let evs = evs.clone();
+        let fmt_ok = fmt_ok.clone();
+        let behind = behind.clone();
+        let steps = &steps;
+        catch(move || {
+            let mut slots: Vec<Option<Slot>> = (0..SLOTS).map(|_| None).collect();
+            for (i, (k, st)) in steps.iter().enumerate() {
+                let k = *k;
+                match st {
+                    MStep::NewW(sk, sj) => {
+                        let data = Rc::new(RefCell::new(Vec::<u8>::new()));
+                        let sink = Sink { data: data.clone(), k: *sk, j: *sj, calls: 0 };
+                        let mut home = Vec::with_capacity(1);
+                        home.push(ManuallyDrop::new(Writer::new(Box::new(sink))));
+                        slots[k] = Some(Slot::W { w: home, data, want: Vec::new() });
+                    }
+                    MStep::NewR(rc, text) => {
+                        let src = Src { data: text.as_bytes().to_vec(), pos: 0, chunk: *rc, calls: 0 };
+                        let mut home = Vec::with_capacity(1);
+                        home.push(Reader::new(Box::new(src)));
+                        slots[k] = Some(Slot::R(home));
+                    }
+                    MStep::Pub(op) => {
+                        if let Some(Slot::W { w, data, want }) = slots[k].as_mut() {
+                            exec_pub(&mut w[0], op);
+                            oracle_op(op, want);
+                            if matches!(op, Op::Flush) {
+                                evs.borrow_mut().push(format!("{}:F={}", k, obs_str(&data.borrow())));
+                                if *data.borrow() != *want {
+                                    fmt_ok.set(false);
+                                }
+                            }
+                            if behind.get().is_none() && data.borrow().len() != want.len() {
+                                behind.set(Some(i));
+                            }
+                        }
+                    }
+                    MStep::Trait(v) => {
+                        if let Some(Slot::W { w, want, .. }) = slots[k].as_mut() {
+                            trait_top(&mut w[0], v);
+                            fmt_val(v, want);
+                        }
+                    }
+                    MStep::Move => match slots[k].as_mut() {
+                        Some(Slot::W { w, .. }) => {
+                            let mut home = Vec::with_capacity(1); // allocated while the old home is still alive
+                            home.push(w.pop().unwrap());
+                            *w = home;
+                        }
+                        Some(Slot::R(r)) => {
+                            let mut home = Vec::with_capacity(1);
+                            home.push(r.pop().unwrap());
+                            *r = home;
+                        }
+                        None => {}
+                    },
+                    MStep::Drop => {
+                        if let Some(Slot::W { mut w, data, want }) = slots[k].take() {
+                            let mut x = w.pop().unwrap();
+                            unsafe { ManuallyDrop::drop(&mut x) };
+                            evs.borrow_mut().push(format!("{}:D={}", k, drop_str(&data.borrow())));
+                            if *data.borrow() != want {
+                                fmt_ok.set(false);
+                            }
+                        }
+                    }
+                    MStep::Leak => match slots[k].take() {
+                        Some(Slot::W { mut w, .. }) => std::mem::forget(w.pop().unwrap()),
+                        Some(Slot::R(mut r)) => std::mem::forget(r.pop().unwrap()),
+                        None => {}
+                    },
+                    MStep::Read(kind) => {
+                        if let Some(Slot::R(r)) = slots[k].as_mut() {
+                            let r = &mut r[0];
+                            let shown = match kind {
+                                RKind::Str => {
+                                    let t = r.read::<String>();
+                                    let hex: String = t.chars().map(|c| format!("{:02x}", c as u32)).collect();
+                                    format!("s:{}", hex)
+                                }
+                                RKind::Chr => format!("c:{:02x}", r.read::<char>() as u32),
+                                RKind::Eof => format!("eof={}", r.is_eof()),
+                                RKind::Int(ty) => read_int_named(r, ty).unwrap(),
+                            };
+                            evs.borrow_mut().push(format!("{}:R={}", k, shown));
+                        }
+                    }
+                }
+            }
+            // end of the history: the writers still alive are dropped in slot order
+            for k in 0..SLOTS {
+                if let Some(Slot::W { mut w, data, want }) = slots[k].take() {
+                    let mut x = w.pop().unwrap();
+                    unsafe { ManuallyDrop::drop(&mut x) };
+                    evs.borrow_mut().push(format!("{}:D={}", k, drop_str(&data.borrow())));
+                    if *data.borrow() != want {
+                        fmt_ok.set(false);
+                    }
+                }
+            }
+        })
+    };
+    if let Err(p) = res {
+        return out1(&p);
+    }
+    let ub = match dbg {
+        "1" if cfg!(debug_assertions) => match behind.get() {
+            None => "ok".to_string(),
+            Some(i) => format!("bad@{}", i),
+        },
+        "1" => "na(profile-mismatch)".to_string(),
+        _ => "na".to_string(),
+    };
+    out1(&format!("mw ev=[{}] fmt={} ub={}", evs.borrow().join(","), if fmt_ok.get() { "ok" } else { "bad" }, ub))
+}
+
+// ------------------------------------------------------------------------------------------------
+// `c` lines: characters written with `write_char`, read back with `read::<char>()`
+// ------------------------------------------------------------------------------------------------
+
+fn run_ccase(line: &str) -> String {
+    let mut parts = line.split(';').map(|p| p.trim());
+    let hdr_s = parts.next().unwrap_or("");
+    let ts: Vec<&str> = hdr_s.split_whitespace().collect();
+    let get = |key: &str| -> Option<usize> {
+        ts.iter().find_map(|t| t.split_once('=').and_then(|(k, v)| if k == key { v.parse().ok() } else { None }))
+    };
+    let dbg_ok = ts.iter().any(|t| matches!(*t, "dbg=0" | "dbg=1" | "dbg=*"));
+    let (buf, rbuf, rc) = match (get("buf"), get("rbuf"), get("rc")) {
+        (Some(b), Some(r), Some(c)) if dbg_ok => (b, r, c),
+        _ => return out1("INVALID"),
+    };
+    let (k, j) = (get("k").unwrap_or(0), get("j").unwrap_or(0));
+    let mut chars = Vec::new();
+    for p in parts {
+        if p.is_empty() {
+            continue;
+        }
+        match parse_op(p) {
+            Some(Op::Char(c)) => chars.push(c),
+            _ => return out1("INVALID"),
+        }
+    }
+    if buf == 0 || rbuf == 0 || j == 1 {
+        return out1("INVALID");
+    }
+    let want: Vec<u8> = chars.iter().map(|c| *c as u32 as u8).collect();
+    let data = Rc::new(RefCell::new(Vec::<u8>::new()));
+    let res = {
+        let data = data.clone();
+        let chars = &chars;
+        catch(move || {
+            let mut w = ManuallyDrop::new(Writer::new(Box::new(Sink { data, k, j, calls: 0 })));
+            for c in chars {
+                w.write_char(*c);
+            }
+            unsafe { ManuallyDrop::drop(&mut w) };
+        })
+    };
+    if let Err(p) = res {
+        return out1(&p);
+    }
+    let got = data.borrow().clone();
+    let n_reads = want.iter().filter(|b| !b.is_ascii_whitespace()).count();
+    let vals: Rc<RefCell<Vec<String>>> = Rc::new(RefCell::new(Vec::new()));
+    let r = {
+        let vals = vals.clone();
+        let src = Src { data: got.clone(), pos: 0, chunk: rc, calls: 0 };
+        catch(move || {
+            let mut reader = Reader::new(Box::new(src));
+            for _ in 0..n_reads {
+                let c = reader.read::<char>();
+                vals.borrow_mut().push(format!("c:{:02x}", c as u32));
+            }
+            let e = reader.is_eof();
+            vals.borrow_mut().push(format!("eof={}", e));
+        })
+    };
+    if let Err(p) = r {
+        vals.borrow_mut().push(p);
+    }
+    let joined = vals.borrow().join(",");
+    out1(&format!("cb drop={} vals={}", drop_str(&got), joined))
+}
+
+// ------------------------------------------------------------------------------------------------
 // generators
 // ------------------------------------------------------------------------------------------------
 
@@ -955,7 +1371,10 @@ fn rand_int(rng: &mut SplitMix64, mags: &[u128]) -> String {
 }
 
 fn rand_str(rng: &mut SplitMix64, buf: usize, wordy: bool, allow_big: bool, st: &mut Stats) -> String {
-    let kind = if wordy { *rng.pick(&[0u64, 0, 0, 0, 0, 0, 0, 0, 0, 2]) } else { rng.below(3) };
+    // wordy: printable ASCII (0), every non-whitespace ASCII byte incl. NUL / control characters / DEL (3), non-ASCII (2: outside
+    // the read-back domain); otherwise also blanks (1) and UTF-8 of every character length (4)
+    let kind = if wordy { *rng.pick(&[0u64, 0, 0, 0, 3, 3, 3, 3, 0, 2]) } else { rng.below(5) };
+    st.bump(&format!("str_kind_{}", kind));
     let len: usize = match rng.below(if allow_big { 40 } else { 38 }) {
         0 => 0,
         1..=20 => 1 + rng.below(12) as usize,
@@ -972,7 +1391,13 @@ fn rand_str(rng: &mut SplitMix64, buf: usize, wordy: bool, allow_big: bool, st: 
     let tag = if rng.chance(1, 2) { "s" } else { "S" };
     if len <= 6 && rng.chance(1, 2) {
         // literal
-        let hex: String = (0..len).map(|i| format!("{:02x}", pat_byte(0, rng.below(94), len as u64, i as u64))).collect();
+        // literal: printable, or any non-whitespace ASCII byte (NUL, control characters, DEL included)
+        let hex: String = if rng.chance(1, 2) {
+            (0..len).map(|i| format!("{:02x}", pat_byte(0, rng.below(94), len as u64, i as u64))).collect()
+        } else {
+            st.bump("str_literal_any_ascii");
+            (0..len).map(|_| format!("{:02x}", non_ws_ascii(if rng.chance(1, 4) { 0 } else { rng.below(123) }))).collect()
+        };
         format!("{}:{}", if tag == "s" { "x" } else { "X" }, hex)
     } else {
         format!("{}:{}:{}:{}", tag, kind, len, rng.below(1000))
@@ -1064,6 +1489,14 @@ impl<'a> Gen<'a> {
             ops.join(" ; ")
         ));
     }
+    /// an `m` line: several live objects
+    fn mcase(&mut self, steps: &[String]) {
+        (self.emit)(format!("m buf={} dbg={} rbuf=65536 ; {}", self.buf, self.dbg, steps.join(" ; ")));
+    }
+    /// a `c` line: characters written with `write_char`, read back with `read::<char>()`
+    fn ccase(&mut self, rc: usize, k: usize, j: usize, ops: &[String]) {
+        (self.emit)(format!("c buf={} dbg={} rbuf=65536 rc={} k={} j={} ; {}", self.buf, self.dbg, rc, k, j, ops.join(" ; ")));
+    }
     /// an `r` line (write, drop, read back, values printed); `rbuf` = the real reader's buffer size
     fn rcase(&mut self, rc: usize, alt: bool, ops: &[String]) {
         (self.emit)(format!(
@@ -1077,6 +1510,8 @@ impl<'a> Gen<'a> {
     }
 }
 
+const RCS: [usize; 10] = [0, 1, 2, 3, 4, 5, 6, 7, 64, 4095];
+
 fn rand_sink(rng: &mut SplitMix64, buf: usize) -> (usize, usize) {
     let k = match rng.below(10) {
         0..=3 => 0,
@@ -1089,6 +1524,265 @@ fn rand_sink(rng: &mut SplitMix64, buf: usize) -> (usize, usize) {
     };
     let j = *rng.pick(&[0usize, 0, 0, 2, 3, 5, 17]);
     (k, j)
+}
+
+fn hex_of(bs: &[u8]) -> String {
+    bs.iter().map(|b| format!("{:02x}", b)).collect()
+}
+
+/// An input text for a reader of an `m` line and the in-domain reads that consume it token by token:
+/// (`x:<hex>` literal, read steps without the slot prefix).
+fn reader_plan(rng: &mut SplitMix64, mags: &[u128]) -> (String, Vec<String>) {
+    let mut text: Vec<u8> = Vec::new();
+    let mut reads: Vec<String> = Vec::new();
+    let ntok = 1 + rng.below(6);
+    for _ in 0..ntok {
+        for _ in 0..rng.below(3) {
+            text.push(*rng.pick(&[32u8, 10, 9, 13, 12]));
+        }
+        if rng.chance(1, 2) {
+            // an integer token read with its own type
+            let tok = rand_int(rng, mags);
+            let (ty, v) = tok.split_once(':').unwrap();
+            text.extend_from_slice(v.as_bytes());
+            reads.push(if rng.chance(1, 5) { "RS".to_string() } else { format!("RI {}", ty) });
+        } else {
+            let n = 1 + rng.below(5);
+            for _ in 0..n {
+                text.push(non_ws_ascii(if rng.chance(1, 8) { 0 } else { rng.below(123) }));
+            }
+            match rng.below(4) {
+                0 if n >= 2 => {
+                    reads.push("RC".to_string()); // first byte as `char`, the rest of the word as a String
+                    reads.push("RS".to_string());
+                }
+                0 => reads.push("RC".to_string()),
+                _ => reads.push("RS".to_string()),
+            }
+        }
+        text.push(*rng.pick(&[32u8, 10, 9, 13, 12]));
+    }
+    if rng.chance(1, 3) {
+        text.pop(); // no trailing whitespace: the last token ends at the end of the input
+    }
+    (format!("x:{}", hex_of(&text)), reads)
+}
+
+/// A small writer call for interleaved histories (`W …`, `C …`, `O …`, `L …`, `T …`, `F`), without the slot prefix.
+fn small_call(rng: &mut SplitMix64, buf: usize, mags: &[u128], st: &mut Stats) -> String {
+    match rng.below(16) {
+        0 | 1 => {
+            st.bump("m_call_flush");
+            "F".to_string()
+        }
+        2 | 3 => {
+            st.bump("m_call_char");
+            format!("C {}", if rng.chance(1, 3) { *rng.pick(&[32u64, 10]) } else { 33 + rng.below(94) })
+        }
+        4 | 5 => {
+            st.bump("m_call_out");
+            let n = 1 + rng.below(3) as usize;
+            let xs: Vec<String> = (0..n).map(|_| rand_val(rng, buf, 1, false, false, mags, st)).collect();
+            format!("{} {} {}", if rng.chance(1, 2) { "L" } else { "O" }, n, xs.join(" "))
+        }
+        6..=10 => {
+            st.bump("m_call_trait");
+            let big = rng.chance(1, 20);
+            format!("T {}", rand_val(rng, buf, 2, false, big, mags, st))
+        }
+        _ => {
+            st.bump("m_call_write");
+            let big = rng.chance(1, 20);
+            format!("W {}", rand_val(rng, buf, 2, false, big, mags, st))
+        }
+    }
+}
+
+/// (8) `m` lines. The model gives every object its own buffer; the specification shows, per writer, the text of the calls
+/// addressed to it. What is varied: which entry point left bytes pending (inherent call: buffered build only; trait method:
+/// both builds), what the other object does meanwhile, who is created / flushed / moved / dropped first.
+fn gen_multi(g: &mut Gen, rng: &mut SplitMix64, thorough: bool, mags: &[u128], st: &mut Stats) {
+    let buf = g.buf;
+    // (8a) two writers: A holds pending bytes while B writes; every combination of entry points, B's piece, the way A is observed,
+    //      creation order and drop order
+    let a_pend = ["W x:616e73776572", "T x:616e73776572", "T u32:12345", "W i64:-7", "T v 2 u8:1 u16:65535", "C 65", "O 2 u8:1 x:78",
+        "T t 2 i8:-1 x:7a"];
+    let b_piece: Vec<String> = vec![
+        "W x:6c6f67".into(), "T x:6c6f67".into(), "C 33".into(), "L 2 i64:-7 x:6c6f67".into(), "T i128:-170141183460469231731687303715884105728".into(),
+        format!("W s:0:{}:1", buf + 5), format!("T s:1:{}:2", buf), "T v 3 u64:100 u64:200 u64:300".into(), "W u8:0".into(), "T u8:0".into(),
+    ];
+    for (ai, ap) in a_pend.iter().enumerate() {
+        for (bi, bp) in b_piece.iter().enumerate() {
+            for variant in 0..6usize {
+                if !thorough && (ai + bi + variant) % 3 != 0 {
+                    continue;
+                }
+                let (ka, ja) = [(0usize, 0usize), (1, 0), (0, 2), (3, 2)][(ai + bi) % 4];
+                let mut steps: Vec<String> = Vec::new();
+                let b_first = variant % 2 == 0;
+                if b_first {
+                    steps.push("1 N 0 0".into());
+                }
+                steps.push(format!("0 N {} {}", ka, ja));
+                steps.push(format!("0 {}", ap));
+                if !b_first {
+                    steps.push("1 N 2 3".into());
+                }
+                steps.push(format!("1 {}", bp));
+                match variant / 2 {
+                    0 => {
+                        steps.push("0 F".into());
+                        steps.push("1 F".into());
+                    }
+                    1 => {
+                        steps.push("1 D".into()); // the short-lived second writer goes first
+                        steps.push("0 T x:20656e64".into());
+                        steps.push("0 D".into());
+                    }
+                    _ => {
+                        steps.push("0 MV".into());
+                        steps.push(format!("0 {}", ap));
+                        steps.push(format!("1 {}", bp)); // both dropped at the end, in slot order
+                    }
+                }
+                g.mcase(&steps);
+                st.bump("m_two_writers_pending");
+            }
+        }
+    }
+    // (8b) one writer, inherent calls and the trait method mixed, fill level steered to the boundary (the trait method has no
+    //      debug flush: pending bytes in both builds; the next inherent call must deliver them too)
+    for d in [0usize, 1, 2, 19, 20, 21, 38, 39, 40, 41] {
+        for (n, piece) in ["T u128:340282366920938463463374607431768211455", "T i128:-170141183460469231731687303715884105728", "T x:6162",
+            "T s:0:40:3", "T v 2 u64:18446744073709551615 u64:18446744073709551615", "T t 2 i8:-1 S:0:39:1", "T u8:0", "T S:3:41:9"].iter().enumerate() {
+            let (k, j) = if (n + d) % 3 == 0 { (buf / 3 + 1, 2) } else { (0, 0) };
+            let mut steps = vec![format!("0 N {} {}", k, j), format!("0 T s:0:{}:{}", buf.saturating_sub(d), d), format!("0 {}", piece)];
+            match (n + d) % 4 {
+                0 => steps.push("0 F".into()),
+                1 => steps.push("0 W u8:7".into()),
+                2 => {
+                    steps.push("0 C 10".into());
+                    steps.push("0 T i8:-100".into());
+                }
+                _ => {}
+            }
+            g.mcase(&steps);
+            st.bump("m_trait_fill_boundary");
+        }
+    }
+    for (n, len) in [buf.saturating_sub(1), buf, buf + 1, 2 * buf, 2 * buf + 1, 3 * buf + 7].iter().enumerate() {
+        g.mcase(&["0 N 0 0".to_string(), format!("0 T s:0:{}:{}", len, n), "0 T u8:5".into(), "0 F".into(), format!("0 T S:1:{}:{}", len, n + 1)]);
+        g.mcase(&["0 N 7 3".to_string(), "0 T x:61".into(), format!("0 T S:0:{}:{}", len, n), "0 C 66".into()]);
+        st.add("m_trait_big_string", 2);
+    }
+    // (8b') a writer with pending bytes is leaked (`mem::forget`), the next writer — same slot or another — starts from scratch
+    for (n, pend) in ["W x:6c6f7374", "T x:6c6f7374", "T u64:18446744073709551615", "C 33"].iter().enumerate() {
+        for next in 0..2usize {
+            g.mcase(&["0 N 0 0".to_string(), format!("0 {}", pend), "0 LK".into(), format!("{} N {} 0", next, n), format!("{} T x:6e6577", next), format!("{} W i8:-1", next)]);
+            st.bump("m_leaked_then_new");
+        }
+    }
+    // (8c) a Writer and a Reader alive together: the reader has buffered unread input while the writer writes, the writer has
+    //      pending bytes while the reader refills
+    for i in 0..(if thorough { 2000 } else { 120 }) {
+        let (text, reads) = reader_plan(rng, mags);
+        let rc = *rng.pick(&[0usize, 0, 1, 2, 3, 5, 64]);
+        let mut steps: Vec<String> = Vec::new();
+        let writer_first = i % 2 == 0;
+        if writer_first {
+            steps.push("0 N 0 0".into());
+            steps.push(format!("0 {}", if i % 4 == 0 { "T x:70656e64" } else { "W x:70656e64" }));
+        }
+        steps.push(format!("1 RN {} {}", rc, text));
+        if !writer_first {
+            steps.push(format!("1 {}", reads[0]));
+            steps.push("0 N 1 2".into());
+        }
+        for (n, r) in reads.iter().enumerate().skip(if writer_first { 0 } else { 1 }) {
+            steps.push(format!("0 {}", small_call(rng, buf, mags, st)));
+            steps.push(format!("1 {}", r));
+            if n % 3 == 2 {
+                steps.push(format!("{} MV", n % 2));
+            }
+        }
+        steps.push("0 F".into());
+        steps.push("1 RE".into());
+        if i % 3 == 0 {
+            steps.push("1 D".into());
+            steps.push("0 T x:656e64".into());
+        }
+        g.mcase(&steps);
+        st.bump("m_writer_and_reader");
+    }
+    // (8d) random interleavings of 2..6 objects
+    let n_rand = if thorough { 30000 } else { 900 };
+    for _ in 0..n_rand {
+        let mut steps: Vec<String> = Vec::new();
+        // 0 none, 1 writer, 2 reader (+ its remaining reads)
+        let mut kind = [0u8; SLOTS];
+        let mut reads: Vec<Vec<String>> = vec![Vec::new(); SLOTS];
+        let nsteps = 6 + rng.below(24) as usize;
+        let max_live = 2 + rng.below(5) as usize;
+        let mut writers_seen = 0usize;
+        for stp in 0..nsteps {
+            let live: Vec<usize> = (0..SLOTS).filter(|k| kind[*k] != 0).collect();
+            let want_new = live.len() < 2 || (live.len() < max_live && rng.chance(1, 6));
+            if want_new {
+                let free: Vec<usize> = (0..SLOTS).filter(|k| kind[*k] == 0).collect();
+                let k = *rng.pick(&free);
+                if writers_seen > 0 && rng.chance(1, 4) {
+                    let (text, rs) = reader_plan(rng, mags);
+                    steps.push(format!("{} RN {} {}", k, rng.pick(&[0usize, 1, 2, 3, 7, 64]), text));
+                    kind[k] = 2;
+                    reads[k] = rs;
+                    st.bump("m_new_reader");
+                } else {
+                    let (sk, sj) = rand_sink(rng, buf);
+                    steps.push(format!("{} N {} {}", k, sk, sj));
+                    kind[k] = 1;
+                    writers_seen += 1;
+                    st.bump("m_new_writer");
+                    if stp < 3 && rng.chance(1, 12) {
+                        // steer this writer's fill level close to the boundary
+                        steps.push(format!("{} {} s:0:{}:{}", k, if rng.chance(1, 2) { "T" } else { "W" }, buf.saturating_sub(rng.below(46) as usize), rng.below(50)));
+                        st.bump("m_steered");
+                    }
+                }
+                continue;
+            }
+            let k = *rng.pick(&live);
+            match rng.below(20) {
+                0 => {
+                    steps.push(format!("{} D", k));
+                    kind[k] = 0;
+                    reads[k].clear();
+                    st.bump("m_drop");
+                }
+                1 => {
+                    steps.push(format!("{} MV", k));
+                    st.bump("m_move");
+                }
+                2 if rng.chance(1, 3) => {
+                    steps.push(format!("{} LK", k));
+                    kind[k] = 0;
+                    reads[k].clear();
+                    st.bump("m_leak");
+                }
+                _ => {
+                    if kind[k] == 1 {
+                        steps.push(format!("{} {}", k, small_call(rng, buf, mags, st)));
+                    } else {
+                        let r = if reads[k].is_empty() { "RE".to_string() } else { reads[k].remove(0) };
+                        steps.push(format!("{} {}", k, r));
+                        st.bump("m_read");
+                    }
+                }
+            }
+        }
+        st.bump(&format!("m_random_live_at_end_{}", (0..SLOTS).filter(|k| kind[*k] != 0).count()));
+        g.mcase(&steps);
+        st.bump("m_random");
+    }
 }
 
 fn gen(args: &Args, emit: &mut dyn FnMut(String), st: &mut Stats) {
@@ -1380,7 +2074,6 @@ fn gen(args: &Args, emit: &mut dyn FnMut(String), st: &mut Stats) {
 
     // (7) `r` lines: values read back through the real Reader, printed and compared with the Reader model run on the
     //     Writer model's sink --------------------------------------------------------------------------------------
-    const RCS: [usize; 10] = [0, 1, 2, 3, 4, 5, 6, 7, 64, 4095];
     for t in 0..12usize {
         // tuples of every arity (read with `read::<($t,…)>()` when alt) and vectors (`read_vec::<$t>(n)`) of boundary values
         for n in 2..=8usize {
@@ -1403,12 +2096,13 @@ fn gen(args: &Args, emit: &mut dyn FnMut(String), st: &mut Stats) {
         let val = |rng: &mut SplitMix64, st: &mut Stats| -> String {
             if rng.chance(1, 6) {
                 // a one-byte word (read back as `char` when alt)
-                format!("x:{:02x}", 33 + rng.below(94))
+                st.bump("rb_one_byte_word");
+                format!("x:{:02x}", non_ws_ascii(rng.below(123)))
             } else {
                 // ASCII words only (pattern kind 2 is non-ASCII: outside the read-back domain)
                 loop {
                     let v = rand_val(rng, buf, 2, true, false, &mags, st);
-                    if !v.contains(":2:") {
+                    if !v.contains(":2:") && !v.contains(":4:") {
                         return v;
                     }
                 }
@@ -1452,6 +2146,74 @@ fn gen(args: &Args, emit: &mut dyn FnMut(String), st: &mut Stats) {
         ];
         g.rcase([4095usize, 0, 1, 65536][i % 4], i % 2 == 0, &ops);
         st.bump("rb_long");
+    }
+
+    // (5b) every ASCII byte that is not whitespace — NUL, the other control characters, DEL — inside words that are written and
+    //      read back (`w` lines: compared with the value written; `r` lines: the values read are printed): alone, at the start,
+    //      in the middle and at the end of a word, as `&str` / `String`, in a Vec, a tuple, `out!` and `outln!`
+    for x in 0..123u64 {
+        let b = non_ws_ascii(x);
+        let words = [format!("{:02x}", b), format!("{:02x}61", b), format!("61{:02x}62", b), format!("6162{:02x}", b), format!("{:02x}{:02x}", b, b)];
+        let w = &words[(x % 5) as usize];
+        let rc = RCS[(x % 10) as usize];
+        g.case(0, 0, true, rc, &[format!("W x:{}", words[0]), "C 10".into(), format!("L 3 X:{} i8:-1 x:{}", w, words[2])]);
+        g.rcase(rc, x % 2 == 0, &[format!("L 2 x:{} X:{}", words[0], w), format!("W v 2 x:{} x:{}", words[2], words[3]), "C 32".into(),
+            format!("O 1 t 2 u8:7 X:{}", words[4])]);
+        st.bump("ascii_byte_roundtrip");
+    }
+    for i in 0..(if thorough { 400 } else { 40 }) {
+        // long words made of all 123 bytes
+        let len = *rng.pick(&[123usize, 124, 246, 1000, 4096, 65535, 65536, 65537]);
+        let rc = RCS[i % 10];
+        g.case(0, 0, true, rc, &[format!("L 2 s:3:{}:{} S:3:{}:{}", len, i, 1 + i % 200, i + 1)]);
+        g.rcase(rc, i % 2 == 0, &[format!("L 2 s:3:{}:{} S:3:{}:{}", len, i, 1 + i % 200, i + 1)]);
+        st.bump("ascii_byte_roundtrip_long");
+    }
+    // strings of every UTF-8 character length (every byte value a `String` can hold), at fill levels around the boundary
+    for i in 0..(if thorough { 300 } else { 40 }) {
+        let len = *rng.pick(&[1usize, 2, 3, 4, 5, 37, 100, 1000, 5000]);
+        let fill = *rng.pick(&[0usize, 1, buf.saturating_sub(3), buf.saturating_sub(2), buf.saturating_sub(1), buf]);
+        let (k, j) = rand_sink(&mut rng, buf);
+        let mut ops = Vec::new();
+        if fill > 0 {
+            ops.push(format!("W s:0:{}:{}", fill, i));
+        }
+        ops.push(format!("W {}:4:{}:{}", if i % 2 == 0 { "s" } else { "S" }, len, rng.below(100000)));
+        ops.push("C 126".into());
+        g.case(k, j, false, 0, &ops);
+        st.bump("utf8_all_lengths");
+    }
+
+    // (8) `m` lines: several live objects on one thread ------------------------------------------------------------------
+    gen_multi(&mut g, &mut rng, thorough, &mags, st);
+
+    // (9) `c` lines: characters written with `write_char`, read back with `read::<char>()` — every ASCII code, NUL/control/DEL
+    //     and the five whitespace characters included (whitespace is skipped by the reader, so it separates nothing here)
+    {
+        let all: Vec<u32> = (0..128).collect();
+        for (n, ch) in all.chunks(16).enumerate() {
+            let ops: Vec<String> = ch.iter().map(|c| format!("C {}", c)).collect();
+            g.ccase(RCS[n % 10], 0, 0, &ops);
+            st.bump("char_roundtrip_exhaustive");
+        }
+        for c in 0..128u32 {
+            g.ccase(RCS[(c % 10) as usize], 0, 0, &[format!("C {}", c), "C 32".into(), format!("C {}", 127 - c), format!("C {}", c)]);
+            st.bump("char_roundtrip_exhaustive");
+        }
+        for _ in 0..(if thorough { 3000 } else { 60 }) {
+            let n = 1 + rng.below(40) as usize;
+            let ops: Vec<String> = (0..n).map(|_| format!("C {}", match rng.below(6) { 0 => 0, 1 => *rng.pick(&[9u64, 10, 12, 13, 32, 11]), _ => rng.below(128) })).collect();
+            let (k, j) = rand_sink(&mut rng, buf);
+            g.ccase(*rng.pick(&RCS), k, j, &ops);
+            st.bump("char_roundtrip_random");
+        }
+        // a buffer's worth of characters (the reader refills several times)
+        for i in 0..(if thorough { 6 } else { 1 }) {
+            let n = buf + 3 + i;
+            let ops: Vec<String> = (0..n).map(|x| format!("C {}", (x * 7 + i) % 128)).collect();
+            g.ccase(RCS[5 + i % 5], 0, 0, &ops);
+            st.bump("char_roundtrip_long");
+        }
     }
 
     // (6) out of the property's domain (non-ASCII characters are truncated by `c as u8`) --------------
